@@ -344,6 +344,12 @@ def pushd_fn(
             return None, e, 1
     elif os.path.isdir(dir_or_n):
         new_pwd = dir_or_n
+        if not cd:
+            # remember the directory rather than the word: a relative word
+            # would later be resolved against another working directory
+            new_pwd = os.path.abspath(os.path.join(pwd, dir_or_n))
+            if not os.path.isdir(new_pwd):
+                return None, f"pushd: no such directory: {new_pwd}\n", 1
     else:
         try:
             num = int(dir_or_n[1:])
